@@ -260,6 +260,9 @@ def run_property(prop, tier, replay=None, rules_filter=None, write_evidence=True
         with open(p + ".tmp", "w") as f:
             json.dump(ev, f, indent=1, default=str)
         os.replace(p + ".tmp", p)
+    if os.environ.get("VERIF_DUMP_INSTANCES"):
+        with open(os.path.join(os.environ["VERIF_DUMP_INSTANCES"], prop + ".json"), "w") as f:
+            json.dump([{k: i[k] for k in ("rule", "key", "ok", "where", "cfg")} for i in ctx.instances], f)
     for l in out_lines:
         print(l)
     print("%s tier=%s: %d rule instances evaluated (%d distinct), %d hold, %d violation(s), %d known finding(s); %.1fs" % (
